@@ -511,7 +511,9 @@ def range_insert_loops(ctx, sr, target=('S', 'dirty')):
         ok = True
         for sg in sgs:
             pre, lev = seg_events(dict(sg, kind='backedge'))
-            ins = [ev for ev in lev if ev[0] == 'set.insert' and ev[1] == target]
+            # (the same field of a Screen that is still a local of its constructor - `new` calls reset on it - counts)
+            ins = [ev for ev in lev if ev[0] == 'set.insert' and ev[1] and (ev[1] == target or (
+                len(ev[1]) == len(target) and isinstance(ev[1][0], str) and ev[1][0].startswith('_') and tuple(ev[1][1:]) == tuple(target[1:])))]
             if len(ins) != 1 or not isinstance(ins[0][2], NumV) or ins[0][2].sym is None or ins[0][2].k != 0:
                 ok = False
                 break
